@@ -25,6 +25,7 @@ Each theorem is followed by an `example` exhibiting a reachable state that satis
 hypotheses (non-vacuity).
 -/
 import GooseVerif.Lemmas.SyncProto
+import GooseVerif.Props.C03Conc
 import GooseVerif.Gen.Guards
 import GooseVerif.Expected.Guards
 
